@@ -1,0 +1,22 @@
+//go:build verif
+
+package clock
+
+import (
+	"sync/atomic"
+	"time"
+)
+
+// VerifWall is a virtual wall clock in Unix nanoseconds used by the
+// verification harness. Zero means "use real time".
+var VerifWall atomic.Int64
+
+func verifWall() int64 { return VerifWall.Load() }
+
+// VerifInit anchors a new clock at the virtual wall time, if one is installed,
+// exactly as Start: time.Now() anchors it at the real one.
+func (c *Clock) VerifInit() {
+	if w := VerifWall.Load(); w != 0 {
+		c.Start = time.Unix(0, w)
+	}
+}
